@@ -13,14 +13,15 @@ import (
 )
 
 type grpStep struct {
-	A    string // reg fire adv rel stop stopwait cancelparent
-	K    int
-	Kind string
-	Iv   int
-	Jit  int
-	D    int
-	Hold bool // the function holds (waits for a release token) and ignores its context
-	NoQ  bool // no quiescence point after this step: the next step races with it
+	A     string // reg fire adv rel stop stopwait cancelparent
+	K     int
+	Kind  string
+	Iv    int
+	Jit   int
+	D     int
+	Hold  bool // the function holds (waits for a release token) and ignores its context
+	NoQ   bool // no quiescence point after this step: the next step races with it
+	Async bool // the registration is made from its own goroutine (it can be overtaken in the middle)
 }
 
 func genGroup(rng *rand.Rand) []grpStep {
@@ -54,7 +55,15 @@ func genGroup(rng *rand.Rand) []grpStep {
 			out = append(out, grpStep{A: "cancelparent"})
 		default:
 			// registrations racing with the stop: several in a row, then StopAndWait, no quiescence in between
-			if nk < 4 && rng.Intn(3) > 0 {
+			if nk < 4 && rng.Intn(3) == 0 {
+				// ... made from their own goroutines, racing with the parent's cancellation and StopAndWait
+				for j := 0; j < 2 && nk < 4; j++ {
+					nk++
+					kinds[nk] = "do"
+					out = append(out, grpStep{A: "reg", K: nk, Kind: "do", Iv: 10, Hold: false, NoQ: true, Async: true})
+				}
+				out = append(out, grpStep{A: []string{"cancelparent", "stop"}[rng.Intn(2)], NoQ: true}, grpStep{A: "stopwait"})
+			} else if nk < 4 && rng.Intn(3) > 0 {
 				for j := 0; j < 2 && nk < 4; j++ {
 					nk++
 					kinds[nk] = "do"
@@ -106,6 +115,11 @@ func runGroup(t *testing.T, steps []grpStep) ([]Ev, bool, string) {
 			case "reg":
 				r.emit(Ev{"ev": "reg", "k": st.K, "kind": st.Kind, "iv": st.Iv, "jit": st.Jit})
 				iv, jit := time.Duration(st.Iv)*time.Millisecond, time.Duration(st.Jit)*time.Millisecond
+				if st.Async {
+					f := mk(st.K, st.Hold, true)
+					go g.Do(f)
+					break
+				}
 				switch st.Kind {
 				case "do":
 					g.Do(mk(st.K, st.Hold, true))
@@ -221,11 +235,32 @@ func groupStopRace(w *traceWriter, runs *int, trials int) {
 	}
 }
 
+// directedGroup: a run of f that outlasts the interval while a trigger arrives: afterwards the tick and the trigger are
+// both pending (which one the select takes is the runtime's choice); the function must keep being invoked periodically
+func directedGroup() [][]grpStep {
+	var out [][]grpStep
+	for _, iv := range []int{10, 50} {
+		s := []grpStep{{A: "reg", K: 1, Kind: "ptrig", Iv: iv, Jit: 0, Hold: true}, {A: "adv", D: iv}, {A: "fire", K: 1}, {A: "adv", D: iv + iv/2},
+			{A: "rel", K: 1}, {A: "rel", K: 1}, {A: "adv", D: 2*iv + 1}, {A: "rel", K: 1}, {A: "adv", D: 2*iv + 1}, {A: "rel", K: 1}, {A: "adv", D: iv}}
+		for rep := 0; rep < 6; rep++ {
+			out = append(out, s)
+		}
+	}
+	return out
+}
+
 func TestGroup(t *testing.T) {
 	rng := seededRand()
 	w := newTraceWriter(envStr("VH_OUT", "/tmp/group.ndjson"))
 	n := envInt("VH_N", 100)
 	runs, leaks := 0, 0
+	for _, s := range directedGroup() {
+		evs, leak, msg := runGroup(t, s)
+		if leak {
+			leaks++
+		}
+		writeRuns(w, &runs, evs, leak, msg, Ev{})
+	}
 	for i := 0; i < n; i++ {
 		evs, leak, msg := runGroup(t, genGroup(rng))
 		if leak {
